@@ -393,7 +393,7 @@ class EquationSolver(object):
                 # that is, it moves half as much.
                 # This slower movement reduces the odds of oscillation.
                 for var, dummy in self.Parser.Endogenous:
-                    new_value[var] = (new_value[var] + initial[var]) / 2.
+                    new_value[var] = new_value[var] / 2. + initial[var] / 2.
             # Use new_value as the initial at the next step
             initial = new_value
             num_tries += 1
